@@ -372,7 +372,7 @@ func checkEquals(rec *stats.Recorder, c eqCase) (msg string, known string) {
 				if same != keq[i][j] && !(keq[i][j] && onlyZeroSigns(keyPart(pool[i].abs), keyPart(pool[j].abs))) {
 					return fail("ComplexKeyEquals(%q, %q) = %v, but the key parts are equal = %v", pool[i].desc, pool[j].desc, keq[i][j], same)
 				}
-				if keq[i][j] && khash[i] != khash[j] && !onlyZeroSigns(keyPart(pool[i].abs), keyPart(pool[j].abs)) {
+				if keq[i][j] && khash[i] != khash[j] && (same || !onlyZeroSigns(keyPart(pool[i].abs), keyPart(pool[j].abs))) {
 					return fail("two keys equal under key equality have different key hashes (%08x vs %08x): %q [%s] and %q [%s]", khash[i], khash[j], pool[i].desc, pool[i].abs.Canon(), pool[j].desc, pool[j].abs.Canon())
 				}
 			}
